@@ -142,6 +142,14 @@ Theorem vfs_write_refines_ref : forall t p tr c r t',
 Proof. exact (fun t p tr c r t' => m_write_refines gen_facts t p tr c r t' eq_refl). Qed.
 Print Assumptions vfs_write_refines_ref.
 
+(* mkdir -p when the back end's MkdirAll creates the directory and STILL reports an error (a creation race lost on a back end
+   that is not atomic; an error reported after the creation): MkDir succeeds, with R's tree.  Needs only mkdir_ok: the re-check
+   `if err != nil && fs.Exists(dir) { err = nil }` after the back-end call. *)
+Theorem vfs_mkdir_race_tolerated : forall t p tr r t',
+  wf t -> r_mkdir t (P p tr) = Out r t' -> m_mkdir_raced gen_facts t p = (r, t').
+Proof. exact (fun t p tr r t' => m_mkdir_raced_refines gen_facts t p tr r t' eq_refl). Qed.
+Print Assumptions vfs_mkdir_race_tolerated.
+
 (* The calls on the empty name alone (needs only paths_ok: without the guards a back end may answer for its own root) *)
 Theorem vfs_empty_name_refines_ref : forall t c m r t',
   is_empty_call c = true -> m_exec gen_facts t c = Some m -> exec t c = Out r t' -> m_r m = r /\ m_t m = t'.
